@@ -19,6 +19,9 @@ import (
 	"github.com/ajitpratap0/GoSQLX/pkg/linter/rules/keywords"
 	"github.com/ajitpratap0/GoSQLX/pkg/linter/rules/style"
 	"github.com/ajitpratap0/GoSQLX/pkg/linter/rules/whitespace"
+	"github.com/ajitpratap0/GoSQLX/pkg/sql/ast"
+	"github.com/ajitpratap0/GoSQLX/pkg/sql/parser"
+	"github.com/ajitpratap0/GoSQLX/pkg/sql/tokenizer"
 	"verifharness/gen"
 	"verifharness/mon"
 )
@@ -32,7 +35,7 @@ func init() {
 func c19Parent(c *mon.Ctx) {
 	c.Rule = "a gosqlx binary built from the working tree is run in scratch directories. Verdicts: for random sets of files (accepted model statements in several layouts, statements made unacceptable by a never-legal token and confirmed rejected by the library, files with lint defects) validate / parse / format / format --check / lint / lint --fail-on-warn must exit 0 exactly when the library's own verdict (gosqlx.Parse; the linter with the CLI's rule set) says so, JSON and SARIF reports must parse and name exactly the rejected files, and every file's bytes and mtime must be unchanged by the check-only commands. Consistency: what format prints, what format -i writes and what format --check decides must agree for every file and option set. Fault enumeration: format -i and lint --auto-fix are run under RLIMIT_FSIZE = k for every k from 0 to the size of the new content (the write fails after k bytes), and under strace killing the process on entry to the j-th write / close / rename / openat / chmod / fsync / unlinkat system call for every j until the run completes; afterwards the file must hold exactly the original or exactly the new content, and a file whose processing failed must be untouched. distinct_nontrivial = distinct (command line, file contents) cases"
 	c.DistinctSet = "cases"
-	c.Assumptions = []string{"zero-byte files are excluded from the verdict oracle (the CLI treats them as nothing to do; the property's other clauses still apply to them); blank and comment-only files are inputs the library rejects", "the library verdict is gosqlx.Parse with default options; dialect and strict flags are not explored",
+	c.Assumptions = []string{"zero-byte files are excluded from the verdict oracle (the CLI treats them as nothing to do; the property's other clauses still apply to them); blank and comment-only files are inputs the library rejects", "the library verdict is gosqlx.Parse with default options (for validate --strict: the parser in strict mode); dialect flags are not explored",
 		"strace counts injection points per thread, so the enumeration covers the j-th call of whichever thread reaches it first; RLIMIT_FSIZE enumeration is exact"}
 	// build the CLI from the working tree
 	cmd := exec.Command("go", "build", "-o", c19Bin, "./cmd/gosqlx")
@@ -111,8 +114,24 @@ type c19File struct {
 	name     string
 	content  string
 	accepted bool // library verdict
+	strictOK bool // library verdict in strict mode (parser.WithStrictMode)
 	blank    bool
 	kind     string
+}
+
+// c19LibAcceptsStrict is the library's verdict in strict mode (empty statements are rejected).
+func c19LibAcceptsStrict(s string) bool {
+	tkz := tokenizer.GetTokenizer()
+	defer tokenizer.PutTokenizer(tkz)
+	toks, err := tkz.Tokenize([]byte(s))
+	if err != nil {
+		return false
+	}
+	tree, err := parser.NewParser(parser.WithStrictMode()).ParseFromModelTokens(toks)
+	if err == nil && tree != nil {
+		ast.ReleaseAST(tree)
+	}
+	return err == nil
 }
 
 func c19LibAccepts(s string) bool {
@@ -125,7 +144,11 @@ func c19LibAccepts(s string) bool {
 func c19MakeFile(r *rand.Rand, avoid map[string]bool, i int) c19File {
 	g := gen.New(rand.New(rand.NewSource(r.Int63())), avoid)
 	f := c19File{name: fmt.Sprintf("f%02d.sql", i)}
-	switch k := r.Intn(12); {
+	switch k := r.Intn(13); {
+	case k == 12:
+		// accepted, but with empty statements: rejected in strict mode only
+		f.content = []string{"SELECT 1;;\n", ";SELECT a FROM t;\n", "SELECT 1;\n;\nSELECT 2;\n", "SELECT a FROM t ; ; ;\n"}[r.Intn(4)]
+		f.kind = "empty-statements"
 	case k < 5:
 		x := g.Statement(2)
 		f.content = gen.Render(x.Toks, gen.Layout{R: r, KwCase: r.Intn(3), Sep: r.Intn(4)})
@@ -162,6 +185,7 @@ func c19MakeFile(r *rand.Rand, avoid map[string]bool, i int) c19File {
 	}
 	if !f.blank {
 		f.accepted = c19LibAccepts(f.content)
+		f.strictOK = c19LibAcceptsStrict(f.content)
 	}
 	return f
 }
@@ -372,6 +396,14 @@ func c19Verdicts(a *ChildArgs, r *rand.Rand, avoid map[string]bool, dir string) 
 	names := c19Names(judged)
 	check("validate", append([]string{"validate"}, names...), &allOK, judged)
 	check("validate-quiet", append([]string{"validate", "--quiet"}, names...), &allOK, judged)
+	// strict mode: the library's strict verdict (empty statements are rejected) decides
+	strictAll := true
+	for _, f := range judged {
+		if !f.strictOK {
+			strictAll = false
+		}
+	}
+	check("validate-strict", append([]string{"validate", "--strict"}, names...), &strictAll, judged)
 	// machine-readable reports
 	for _, fm := range []string{"json", "sarif"} {
 		run := check("validate-"+fm, append([]string{"validate", "--output-format", fm}, names...), &allOK, judged)
@@ -555,6 +587,27 @@ func c19Consistency(a *ChildArgs, r *rand.Rand, avoid map[string]bool, dir strin
 	if mid[f.name].content != f.content {
 		a.Rec.Viol("C19/consistency/check-modified-file", "check-only modes never modify any file", "format / format --check changed the file", wit)
 		return
+	}
+	// -o: the named file receives what is otherwise printed, the input stays as it is
+	os.Remove(filepath.Join(dir, "out.sql"))
+	ofile := c19Exec(dir, nil, append(append([]string{"format", "-o", "out.sql"}, opts...), f.name)...)
+	if !ofile.timedOut && !p.timedOut {
+		ob, oerr := os.ReadFile(filepath.Join(dir, "out.sql"))
+		wo := map[string]interface{}{"file": f.content, "options": opts, "library_accepts": f.accepted, "printed": trunc(p.out, 1500), "out_file": trunc(string(ob), 1500), "rc_print": p.rc, "rc_o": ofile.rc, "stdout_o": trunc(ofile.out, 300), "stderr_o": trunc(ofile.err, 300)}
+		if (ofile.rc == 0) != (p.rc == 0) {
+			a.Rec.Viol(fmt.Sprintf("C19/consistency/output-file/exit-%d-print-%d", ofile.rc, p.rc), "for the same input and options the commands' verdicts are mutually consistent", fmt.Sprintf("format exits %d, format -o exits %d", p.rc, ofile.rc), wo)
+		} else if p.rc == 0 && f.accepted {
+			if oerr != nil {
+				a.Rec.Viol("C19/consistency/output-file/missing", "the text format prints and the text it writes are consistent", "format -o out.sql exited 0 and wrote no file: "+oerr.Error(), wo)
+			} else if o := string(ob); o != p.out && o+"\n" != p.out && o != p.out+"\n" {
+				a.Rec.Viol("C19/consistency/output-file/differs", "the text format prints and the text it writes are consistent", firstDiff(p.out, o), wo)
+			}
+		}
+		if c19Snapshot(dir, files)[f.name].content != f.content {
+			a.Rec.Viol("C19/consistency/output-file/modified-input", "check-only modes never modify any file", "format -o changed its input file", wo)
+			return
+		}
+		os.Remove(filepath.Join(dir, "out.sql"))
 	}
 	w := c19Exec(dir, nil, append(append([]string{"format", "-i"}, opts...), f.name)...)
 	if p.timedOut || chk.timedOut || w.timedOut {
